@@ -49,6 +49,8 @@ class World(object):
 def sense_id(b):
     if b is None:
         return "none"
+    if len(b) == 0:
+        return "empty"
     for k, v in SENSE.items():
         if v is not None and bytes(b) == v:
             return k
@@ -280,6 +282,15 @@ def run(chk, replay=None):
                 ev.case((c["tr"], route, c["prev"], c["st"], c["s"], c["raw"]), nontrivial=c["st"] != 0)
                 e = {"tr": c["tr"], "st": c["st"], "s": c["s"], "raw": c["raw"], "o": o, "route": route, "prev": c["prev"]}
                 events.append(e)
+                if c["tr"] == "sgio" and c["st"] == 2 and c["s"] == "none":
+                    # the same completion through a binding that reports CHECK CONDITION with an EMPTY sense buffer
+                    # (judged by Trace_Transport under the transport name "sgio_e")
+                    w.fs.CC_WITHOUT_SENSE = True
+                    try:
+                        o2 = one(w, "sgio", c["prev"], c["st"], c["s"], c["raw"], route)
+                    finally:
+                        w.fs.CC_WITHOUT_SENSE = False
+                    events.append({"tr": "sgio_e", "st": c["st"], "s": c["s"], "raw": c["raw"], "o": o2, "route": route, "prev": c["prev"]})
                 if not any(match(o, a) for a in c["allowed"]):
                     clause = "NoSilentFailure" if o["how"] == "returned" else \
                         ("SenseFaithful" if o["exc"] == "CheckCondition" else "NamedStatusNamedError")
